@@ -5,8 +5,8 @@ ghost layout (chunk starts cs(i), record counts cn(i), event bases ob(i)); seek_
 contract (proved on its real body, see verify_seek_until in checks/c06.py); from_kd_buf, set_thread_map and
 OsLogEvent.from_raw_log_event through theirs (C01, C02, C16).  The block dispatch loop and the log loop are
 verified step-wise: for an arbitrary block / log record and arbitrary accumulator state, the loop body
-performs exactly the specified update.  The block *scanner* (GreedyRange(Struct(tag, Select(Aligned(...), ...))))
-is a labelled bounded stand-in (native enumeration), see DESIGN."""
+performs exactly the specified update.  The block scanner GreedyRange(Struct(tag, Select(Aligned(8, Prefixed), Prefixed))) is verified by a loop rule over a ghost
+block layout (the real declaration parses each block in place; the repetition stops at the end of the file)."""
 import z3
 
 from pyvc.harness import Session
@@ -195,7 +195,7 @@ def verify_chunk_loops(run, tier, wf=True, prefix='C03/parse_v3'):
         return step_hooks(it, stmt, fr, iterable, state, prefix, wf)
     it.symwhile_hook = while_hook
     it.symloop_hook = for_hook
-    it.greedy_hook = lambda it_, d, reader, ctxobj, node: blocks_contract(it_, reader, state)
+    it.greedy_hook = lambda it_, d, reader, ctxobj, node: blocks_contract(it_, reader, state, d if wf else None, ctxobj, node, prefix)
 
     def thunk(ctx):
         state.clear()
@@ -223,8 +223,8 @@ def chunk_facts(f, cs, cn, Kc, i):
     end = cs(i) + 24 + 64 * cn(i)
     return [occurs_at(f, cs(i), EVENTS_TAG), cn(i) >= 0, f.le(cs(i) + 8, 8) == 8 + 64 * cn(i), end + 8 <= f.N,
             occurs_at(f, end, MORE_EVENTS) == (i < Kc - 1),
-            z3.Implies(i < Kc - 1, z3.And(cs(i + 1) >= end + 8,
-                                          z3.ForAll([Q], z3.Implies(z3.And(Q >= end + 8, Q < cs(i + 1)), z3.Not(occurs_at(f, Q, EVENTS_TAG))))))]
+            z3.Implies(i < Kc - 1, cs(i + 1) >= end + 8),
+            z3.Implies(i < Kc - 1, z3.ForAll([Q], z3.Implies(z3.And(Q >= end + 8, Q < cs(i + 1)), z3.Not(occurs_at(f, Q, EVENTS_TAG)))))]
 
 
 def wf_v3(ctx, f, cs, cn, ob, Kc, state):
@@ -261,20 +261,62 @@ TAGS = {'TRACEV3_DYLD_MODULES': 'dyld_modules', 'TRACEV3_TRACE_CODES': 'trace_co
         'TRACEV3_LOG_STRINGS': 'log_strings'}
 
 
-def blocks_contract(it, reader, state):
-    """stand-in for the block scanner: an arbitrary list of (tag, payload) blocks lying in the file after the
-    events (the scanner itself is checked by bounded native enumeration, see bounded stand-ins)"""
+def blocks_contract(it, reader, state, d=None, ctxobj=None, node=None, prefix='C03/parse_v3'):
+    """loop rule for the block scanner GreedyRange(Struct('tag'/Bytes(8), 'data'/Select(Aligned(8, Prefixed(Int64ul,
+    GreedyBytes)), Prefixed(Int64ul, GreedyBytes)))) over the ghost block layout: nb blocks at offsets bo(j) with payload
+    lengths bl(j); every block but possibly the last is padded to 8 bytes; the file ends after the last block.
+      step : at bo(j) the *real declaration* parses to (tag = file[bo(j):+8], data = file[bo(j)+16 : +bl(j)]) and leaves
+             the reader at bo(j+1);
+      exit : at the end of the file the element parse fails, so the repetition stops there.
+    The result is then the list of those blocks."""
     ctx = it.ctx
     f = reader.file
     nb = z3.Int('blocks.n')
-    ctx.facts.append(nb >= 0)
     bo, bl = z3.Function('blocks.off', I, I), z3.Function('blocks.len', I, I)
+    lastpad = z3.Bool('blocks.last_padded')
+    start = reader.pos
+    j = z3.Int('blk!j')
+    padof = lambda q: (-(8 + bl(q))) % 8
+    nxt = lambda q: bo(q) + 16 + bl(q) + z3.If(z3.Or(q < nb - 1, lastpad), padof(q), 0)
+    ctx.facts += [nb >= 0, bo(0) == start,
+                  z3.ForAll([j], z3.Implies(z3.And(j >= 0, j < nb), z3.And(bl(j) >= 0, f.le(bo(j) + 8, 8) == bl(j), bo(j + 1) == nxt(j),
+                                                                         bo(j + 1) <= f.N))),
+                  bo(nb) == f.N]
     cls = ClassVal('Container', None, 'plain')
+    state['blocks_start'] = start
+    if d is not None and ctx.branch(z3.Bool('blocks.inductive_step')):
+        q = z3.Int('blocks.j')
+        ctx.assume(z3.And(q >= 0, q < nb))
+        for fct in (bl(q) >= 0, f.le(bo(q) + 8, 8) == bl(q), bo(q + 1) == nxt(q), bo(q + 1) <= f.N, bo(q) >= start):
+            ctx.assume(fct)          # use(layout, q)
+        ctx.oblige(prefix + '/scanner.lemma.padding-is-0-to-7-bytes', z3.And(padof(q) >= 0, padof(q) < 8, (8 + bl(q) + padof(q)) % 8 == 0))
+        ctx.assume(z3.And(padof(q) >= 0, padof(q) < 8, (8 + bl(q) + padof(q)) % 8 == 0))
+        reader._write('pos', bo(q))
+        try:
+            v = CP.parse(it, d.args[0], reader, ctxobj, node)
+        except PyExc as ex:
+            ctx.oblige(prefix + '/scanner.step-parses-the-block', z3.BoolVal(False), info={'raised': ex.cls_name})
+            raise pathsmod.PathCut('scanner step raised')
+        tg, dt = v.fields.get('tag'), v.fields.get('data')
+        ok = isinstance(tg, stream.FBytes) and isinstance(dt, stream.FBytes)
+        ctx.oblige(prefix + '/scanner.step-parses-the-block', z3.BoolVal(bool(ok)))
+        if ok:
+            ctx.oblige(prefix + '/scanner.step-tag-and-payload', z3.And(tg.start == bo(q), tg.length == 8, dt.start == bo(q) + 16, dt.length == bl(q)))
+            ctx.oblige(prefix + '/scanner.step-next-block', reader.pos == bo(q + 1))
+        raise pathsmod.PathCut('scanner step')
+    if d is not None and ctx.branch(z3.Bool('blocks.exit_step')):
+        reader._write('pos', f.N)
+        try:
+            CP.parse(it, d.args[0], reader, ctxobj, node)
+            ctx.oblige(prefix + '/scanner.stops-at-the-end-of-the-file', z3.BoolVal(False))
+        except PyExc:
+            ctx.oblige(prefix + '/scanner.stops-at-the-end-of-the-file', z3.BoolVal(True))
+        raise pathsmod.PathCut('scanner exit')
 
     def elem(q):
         ctx.facts.append(z3.And(bo(q) >= 0, bl(q) >= 0, bo(q) + 16 + bl(q) <= f.N, stream.ValidText(f.F, bo(q) + 16, bl(q))))
         return Obj(cls, {'tag': stream.FBytes(f, bo(q), 8), 'data': stream.FBytes(f, bo(q) + 16, bl(q))})
-    state['blocks_start'] = reader.pos
+    reader._write('pos', f.N)
     lst = SymList('blocks', nb, elem, origin='blocks')
     state['blocks'] = lst
     return lst
